@@ -31,13 +31,14 @@ def topics_bad(ts: ListSI) -> bool:
 def _(self: Ref['mqtt.client.pubsubs.MQTTProtocol'], request: Ref['mqtt.pdu.SUBSCRIBE']) -> Ref['Deferred']:
     requires(is_obj(self.addr))
     requires(live(self) and isa(self._pingReq, 'mqtt.pdu.PINGREQ'))
-    requires(is_int(request.qos) and is_none(request.msgId) and is_none(request.encoded))
+    requires(is_int(request.qos) and is_none(request.msgId) and is_none(request.encoded) and is_unset(request.g_base))
     requires(is_unset(request.alarm) and is_unset(request.deferred) and is_unset(request.interval))
     requires(sub_shape_ok(request) or is_int(request.topics) or is_none(request.topics))
     ts = norm_sub(request)
     full = len(S(self)) >= self._window
     rejected = full or not sub_shape_ok(request) or topics_bad(ts)
     modifies(all_but(KEEP_API))
+    ensures(base_fixed())
     ensures(live(self))
     ensures(is_bool(result.d_fired) and not (result.d_val == exc('MQTTStateError')))
     ensures(unchanged(self._pingReq.alarm))
@@ -51,7 +52,8 @@ def _(self: Ref['mqtt.client.pubsubs.MQTTProtocol'], request: Ref['mqtt.pdu.SUBS
                     result == request.deferred and not result.d_fired and result.msgId == self.factory.id
                     and request.msgId == self.factory.id and contains(S(self), self.factory.id)
                     and S(self)[self.factory.id] == request
-                    and out(self) == old(out(self)) + lb(sSUBSCRIBE(self.factory.id, ts))))
+                    and out(self) == old(out(self)) + lb(sSUBSCRIBE(self.factory.id, ts))
+                    and request.g_base == sSUBSCRIBE(self.factory.id, ts)))
 
 
 @ghost_at('mqtt.client.pubsubs.MQTTProtocol.doSubscribe', after='request.deferred = defer.Deferred()')
@@ -74,7 +76,7 @@ def strs_bad(ts: ListStr) -> bool:
 def _(self: Ref['mqtt.client.pubsubs.MQTTProtocol'], request: Ref['mqtt.pdu.UNSUBSCRIBE']) -> Ref['Deferred']:
     requires(is_obj(self.addr))
     requires(live(self) and isa(self._pingReq, 'mqtt.pdu.PINGREQ'))
-    requires(is_none(request.msgId) and is_none(request.encoded))
+    requires(is_none(request.msgId) and is_none(request.encoded) and is_unset(request.g_base))
     requires(is_unset(request.alarm) and is_unset(request.deferred) and is_unset(request.interval))
     requires(is_str(request.topics) or is_list_str(request.topics) or is_int(request.topics) or is_none(request.topics) or is_pair_si(request.topics))
     ts = norm_unsub(request)
@@ -82,6 +84,7 @@ def _(self: Ref['mqtt.client.pubsubs.MQTTProtocol'], request: Ref['mqtt.pdu.UNSU
     shape = is_str(request.topics) or is_list_str(request.topics)
     rejected = full or not shape or strs_bad(ts)
     modifies(all_but(KEEP_API))
+    ensures(base_fixed())
     ensures(live(self))
     ensures(is_bool(result.d_fired) and not (result.d_val == exc('MQTTStateError')))
     ensures(unchanged(self._pingReq.alarm))
@@ -92,9 +95,20 @@ def _(self: Ref['mqtt.client.pubsubs.MQTTProtocol'], request: Ref['mqtt.pdu.UNSU
                     result == request.deferred and not result.d_fired and result.msgId == self.factory.id
                     and request.msgId == self.factory.id and contains(U(self), self.factory.id)
                     and U(self)[self.factory.id] == request
-                    and out(self) == old(out(self)) + lb(sUNSUBSCRIBE(self.factory.id, ts))))
+                    and out(self) == old(out(self)) + lb(sUNSUBSCRIBE(self.factory.id, ts))
+                    and request.g_base == sUNSUBSCRIBE(self.factory.id, ts)))
 
 
 @ghost_at('mqtt.client.pubsubs.MQTTProtocol.doUnsubscribe', after='request.deferred = defer.Deferred()')
 def _():
     gset(request.deferred.d_owner, request)
+
+
+@ghost_at('mqtt.client.pubsubs.MQTTProtocol.doSubscribe', after='request.encode()')
+def _():
+    gset(request.g_base, as_bytes(request.encoded))
+
+
+@ghost_at('mqtt.client.pubsubs.MQTTProtocol.doUnsubscribe', after='request.encode()')
+def _():
+    gset(request.g_base, as_bytes(request.encoded))
